@@ -1,8 +1,8 @@
 SPECIFICATION Spec
 CONSTANTS
  TypeDefs <- MCTypeDefs
- Mols <- MCMolsSmall
- Fudges <- MCFudgesSmall
+ Mols <- MCMolsQuick
+ Fudges <- MCFudges
  Angles <- MCAngles
  DevImproper = FALSE
  DevPerAtom = FALSE
@@ -17,6 +17,7 @@ INVARIANT Congruent
 INVARIANT VSKept
 INVARIANT Untouched
 INVARIANT Protocol
+INVARIANT RotationLawsOnce
 INVARIANT TemplatesOKOnce
-PROPERTY OwnOnly
+INVARIANT BruteOnce
 CHECK_DEADLOCK FALSE
